@@ -495,6 +495,12 @@ func useMeth(r meth.R) {
 func use(a *alpha.TA, o *omega.TO) {
 	a.Stats = 1
 	o.Stats = 1
+	a.Stats += 2
+	o.Stats -= 2
+	a.Stats++
+	o.Stats--
+	a.Stats, o.Stats = 3, 4
+	a.G += 1 // want IMM02
 	a.F = 1 // want IMM01
 	o.F = 1 // want IMM01
 	a.G++ // want IMM03
@@ -689,6 +695,53 @@ import "ex.com/m/lib"
 func plain(t *lib.T) {
 	t.F = 3 // want IMM01
 }
+`}}},
+		Unrelated(),
+	}}
+}
+
+// SharedSyntax: constructs whose syntax several analyzers look at in different ways — an explicit
+// instantiation whose type argument is the only mention of a restricted type, parenthesised callees,
+// a parenthesised new. The syntax trees of a package are shared by all analyzers (and by the
+// package's test variant); nobody may change them.
+func SharedSyntax() *prog.Program {
+	return &prog.Program{Pkgs: []prog.Pkg{
+		{Path: "ex.com/m/lib", Files: []prog.File{{Name: "lib.go", Src: `package lib
+
+// Secret is restricted.
+// @packageonly nowhere
+type Secret struct{ N int }
+
+// Conf is constructor-restricted.
+// @constructor NewConf
+type Conf struct{ N int }
+
+func NewConf() *Conf { return &Conf{} }
+
+// Probe is test-only.
+// @testonly
+func Probe() int { return 0 }
+
+// Map is generic and unrestricted.
+func Map[V any](n int) []V { return make([]V, n) }
+
+// Keep is unrestricted.
+func Keep() int { return 0 }
+`}}},
+		{Path: "ex.com/m/app", Files: []prog.File{{Name: "app.go", Src: `package app
+
+import "ex.com/m/lib"
+
+func use() {
+	_ = lib.Map[lib.Secret](3) // want PKGO01
+	_ = (lib.Keep)()
+	_ = (lib.Probe)() // want TONL02
+	_ = lib.Map[*lib.Conf](1)
+	_ = (lib.Map[int])(2)
+}
+`}, {Name: "app_test.go", Src: `package app
+
+func useInTest() { use() }
 `}}},
 		Unrelated(),
 	}}
